@@ -70,7 +70,7 @@ UidPair(k) ==
      ELSE IF c = 5 THEN <<Uid(k, 1, 53), Uid(k, 2, 62)>>
      ELSE <<Uid(k, 1, IF k = LongAt THEN LongLen ELSE 117), Uid(k, 2, 200)>>
 KLenList == <<1, 16, 32, 33, 48, 128, 129>>
-KLen(k) == KLenList[Col(k, 5) + 1]
+KLen(k) == IF k = 10004 THEN 300 ELSE KLenList[Col(k, 5) + 1]     \* 10004: ten KDF blocks (multi-lane KDF paths + tail)
 ConfList == <<<<TRUE, TRUE>>, <<FALSE, FALSE>>, <<TRUE, FALSE>>, <<FALSE, TRUE>>, <<TRUE, TRUE>>, <<FALSE, FALSE>>, <<TRUE, TRUE>>>>
 Conf(k) == ConfList[Col(k, 6) + 1]
 Cfg(k) == [dA |-> ScDA(k), dB |-> ScDB(k), uidA |-> UidPair(k)[1], uidB |-> UidPair(k)[2],
